@@ -47,10 +47,27 @@ class C16Numpy(CplNumpy):
         return CplNumpy.log(self, x)
 
 
+def _lifted(tab):
+    out = realnp.empty(tab.shape, dtype=object)
+    for idx in realnp.ndindex(tab.shape):
+        out[idx] = lift_exact(tab[idx])
+    return out
+
+
 def _load():
+    """eko.couplings with the shim; the upward table is handed on with every float entry lifted to the exact rational it denotes, so that the
+    inversion and the matching loop run in exact arithmetic (Python float arithmetic between table entries would round)."""
     cpl = cpl_module("eko.couplings")
     cpl.np = C16Numpy()
     cpl.float = sym_float
+    real_up = cpl.compute_matching_coeffs_up
+    if not getattr(real_up, "_c16_lifted", False):
+        def up(mass_scheme, nf):
+            return _lifted(real_up(mass_scheme, nf))
+
+        up._c16_lifted = True
+        up.__wrapped__ = real_up
+        cpl.compute_matching_coeffs_up = up
     return cpl
 
 
@@ -63,7 +80,7 @@ def make_sc(cpl, scheme, order, nf_ref, wall_idx, a_ref, Ls, record=None):
     info = CouplingsInfo(alphas=0.2, alphaem=0.0075, ref=(mu, nf_ref), em_running=False)
     sc = cpl.Couplings(info, (order, 0), CouplingEvolutionMethod.EXPANDED, list(WALLS), QuarkMassScheme[scheme], [1.0, 1.0, 1.0])
     # the reference scale must be bit-identical to the wall for the zero-length segments
-    sc.atlas.origin = (WALLS[wall_idx], nf_ref)
+    sc.atlas.origin = (WALLS[wall_idx], SR(nf_ref))  # nf as an exact constant: the nf-dependent table entries are then evaluated exactly
     sc.a_ref = a_ref
     sc.thresholds_ratios = [RatioTok(L) for L in Ls]
 
@@ -99,7 +116,7 @@ DECIMALS = {("POLE", 3, 0): (Fraction(5, 10**4), Fraction(5, 10**5)), ("MSBAR", 
 
 def case_table(log, scheme):
     cpl = _load()
-    log.encode(cpl.compute_matching_coeffs_up, cpl.compute_matching_coeffs_down, cpl.invert_matching_coeffs)
+    log.encode(cpl.compute_matching_coeffs_up.__wrapped__, cpl.compute_matching_coeffs_down, cpl.invert_matching_coeffs)
     D = Decider(log, max_replays=4)
     bad = DEC.selftest()
     if bad:
@@ -109,17 +126,12 @@ def case_table(log, scheme):
         nf = SR.var("nf")
         _nf_domain(nf)
         up = cpl.compute_matching_coeffs_up(scheme, nf)
-        real_up = cpl.compute_matching_coeffs_up
-        cpl.compute_matching_coeffs_up = lambda s, n: realnp.array([[lift_exact(e) for e in row] for row in real_up(s, n)], dtype=object)
-        try:
-            down = cpl.compute_matching_coeffs_down(scheme, nf)
-        finally:
-            cpl.compute_matching_coeffs_up = real_up
+        down = cpl.compute_matching_coeffs_down(scheme, nf)
         lit_up, lit_down = DEC.up_table(scheme, nf), DEC.down_table(scheme, nf)
-        rp = (MOD, "replay_table", {"scheme": scheme})
         for n in range(0, 4):
             for l in range(0, 4):
                 for which, tab, lit in (("up", up, lit_up), ("down", down, lit_down)):
+                    rp = (MOD, "replay_table", {"scheme": scheme, "which": which, "n": n, "l": l})
                     got = SR(0) + tab[n, l]
                     want = SR(0) + DEC.get(lit, n, l)
                     key = "compute_matching_coeffs_%s:%s:c%d%d" % (which, scheme, n, l)
@@ -150,7 +162,7 @@ def _steps(nf_from, nf_to):
 
 def case_loop(log, scheme, order, routes):
     cpl = _load()
-    log.encode(cpl.Couplings.a, cpl.compute_matching_coeffs_up, cpl.compute_matching_coeffs_down, cpl.invert_matching_coeffs)
+    log.encode(cpl.Couplings.a, cpl.compute_matching_coeffs_up.__wrapped__, cpl.compute_matching_coeffs_down, cpl.invert_matching_coeffs)
     D = Decider(log)
 
     def mk(nf_from, nf_to):
@@ -165,10 +177,10 @@ def case_loop(log, scheme, order, routes):
             last = steps[-1][0] - 3
             rec = []
             sc = make_sc(cpl, scheme, order, nf_from, first, symarr([a, aem]), Ls, rec)
-            got = sc.a(WALLS[last], nf_to)
+            got = sc.a(WALLS[last], SR(nf_to))
             want = a
             for nfl, d in steps:
-                tab = cpl.compute_matching_coeffs_up(scheme, nfl) if d == "up" else cpl.compute_matching_coeffs_down(scheme, nfl)
+                tab = cpl.compute_matching_coeffs_up(scheme, SR(nfl)) if d == "up" else cpl.compute_matching_coeffs_down(scheme, SR(nfl))
                 want = apply_table(want, tab, Ls[nfl - 3], order)
             tag = "%s order %d, nf %d -> %d" % (scheme, order, nf_from, nf_to)
             rp = (MOD, "replay_loop", {"scheme": scheme, "order": order, "nf_from": nf_from, "nf_to": nf_to})
@@ -199,7 +211,7 @@ def case_loop(log, scheme, order, routes):
 
 def case_continuity(log, scheme):
     cpl = _load()
-    log.encode(cpl.Couplings.a, cpl.compute_matching_coeffs_up, cpl.compute_matching_coeffs_down)
+    log.encode(cpl.Couplings.a, cpl.compute_matching_coeffs_up.__wrapped__, cpl.compute_matching_coeffs_down)
     D = Decider(log)
 
     def mk(order, nf_from, nf_to):
@@ -209,7 +221,7 @@ def case_continuity(log, scheme):
             assume(a, ">0")
             steps = _steps(nf_from, nf_to)
             sc = make_sc(cpl, scheme, order, nf_from, steps[0][0] - 3, symarr([a, aem]), [SR(0), SR(0), SR(0)])
-            got = sc.a(WALLS[steps[-1][0] - 3], nf_to)
+            got = sc.a(WALLS[steps[-1][0] - 3], SR(nf_to))
             rp = (MOD, "replay_loop", {"scheme": scheme, "order": order, "nf_from": nf_from, "nf_to": nf_to, "unit": True})
             v = prove_zero(SR(0) + got[0] - a, "%s order %d, nf %d -> %d, unit ratio: coupling continuous across the threshold" % (scheme, order, nf_from, nf_to))
             D(v, key="Couplings.a:continuity", replay=rp, sampler=_sampler)
@@ -234,7 +246,7 @@ def _gamma_lit(nf, n, z3):
 
 def case_rg(log, scheme, order):
     cpl = _load()
-    log.encode(cpl.Couplings.a, cpl.compute_matching_coeffs_up)
+    log.encode(cpl.Couplings.a, cpl.compute_matching_coeffs_up.__wrapped__)
     D = Decider(log)
 
     def mk(nfl):
@@ -249,7 +261,7 @@ def case_rg(log, scheme, order):
             aem = SR.var("aem")
             lam = Jet.lam()
             sc = make_sc(cpl, scheme, order, nfl, nfl - 3, symarr([lam, aem]), Ls)
-            F = as_jet(sc.a(WALLS[nfl - 3], nfl + 1)[0])
+            F = as_jet(sc.a(WALLS[nfl - 3], SR(nfl + 1))[0])
             if F.prec < order + 1:
                 raise EngineError("matched coupling known only to O(a^%d)" % F.prec)
             Fn = Jet(F.v, [c.novar() for c in F.c], F.prec)
@@ -285,7 +297,7 @@ def case_rg(log, scheme, order):
 def case_rg_symbolic_nf(log, scheme):
     """the same identity for the table functions alone with nf a symbolic real (one run for every nf) at order 4."""
     cpl = _load()
-    log.encode(cpl.compute_matching_coeffs_up)
+    log.encode(cpl.compute_matching_coeffs_up.__wrapped__)
     D = Decider(log)
     order = 4
 
@@ -349,7 +361,7 @@ def case_rg_symbolic_nf(log, scheme):
 
 def case_inverse(log, scheme, order):
     cpl = _load()
-    log.encode(cpl.Couplings.a, cpl.compute_matching_coeffs_up, cpl.compute_matching_coeffs_down, cpl.invert_matching_coeffs)
+    log.encode(cpl.Couplings.a, cpl.compute_matching_coeffs_up.__wrapped__, cpl.compute_matching_coeffs_down, cpl.invert_matching_coeffs)
     D = Decider(log)
 
     def mk(nfl):
@@ -361,10 +373,10 @@ def case_inverse(log, scheme, order):
             assume(alpha, ">0")
             a = Jet.lam() * alpha
             w = nfl - 3
-            up = make_sc(cpl, scheme, order, nfl, w, symarr([a, aem]), Ls).a(WALLS[w], nfl + 1)[0]
-            back = make_sc(cpl, scheme, order, nfl + 1, w, symarr([up, aem]), Ls).a(WALLS[w], nfl)[0]
-            dn = make_sc(cpl, scheme, order, nfl + 1, w, symarr([a, aem]), Ls).a(WALLS[w], nfl)[0]
-            forth = make_sc(cpl, scheme, order, nfl, w, symarr([dn, aem]), Ls).a(WALLS[w], nfl + 1)[0]
+            up = make_sc(cpl, scheme, order, nfl, w, symarr([a, aem]), Ls).a(WALLS[w], SR(nfl + 1))[0]
+            back = make_sc(cpl, scheme, order, nfl + 1, w, symarr([up, aem]), Ls).a(WALLS[w], SR(nfl))[0]
+            dn = make_sc(cpl, scheme, order, nfl + 1, w, symarr([a, aem]), Ls).a(WALLS[w], SR(nfl))[0]
+            forth = make_sc(cpl, scheme, order, nfl, w, symarr([dn, aem]), Ls).a(WALLS[w], SR(nfl + 1))[0]
             rp = (MOD, "replay_inverse", {"scheme": scheme, "order": order, "nfl": nfl})
             for tag, x in (("down(up(a))", back), ("up(down(a))", forth)):
                 d = as_jet(x) - a
@@ -396,20 +408,17 @@ def _lit_tab(scheme, nfl, direction):
     return [[float(DEC.get(t, n, l)) for l in range(4)] for n in range(4)]
 
 
-def replay_table(point, scheme):
+def replay_table(point, scheme, which, n, l):
     from eko import couplings as cpl
 
     nf = int(round(float(point.get("nf", 4))))
     if not 3 <= nf <= 5:
         return None
-    for which, tab, lit in (("up", cpl.compute_matching_coeffs_up(scheme, nf), _lit_tab(scheme, nf, "up")), ("down", cpl.compute_matching_coeffs_down(scheme, nf), _lit_tab(scheme, nf, "down"))):
-        for n in range(4):
-            for l in range(4):
-                tol = 1e-3 if (n, l) == (3, 0) else 1e-9 * max(1.0, abs(lit[n][l]))
-                if which == "down" and n == 3 and l == 1:
-                    tol = max(tol, 1e-9)
-                if abs(tab[n, l] - lit[n][l]) > tol:
-                    return {"detail": "%s-matching coefficient c[%d,%d] for scheme %s, nf=%d is %r, published value %r" % (which, n, l, scheme, nf, float(tab[n, l]), lit[n][l])}
+    tab = cpl.compute_matching_coeffs_up(scheme, nf) if which == "up" else cpl.compute_matching_coeffs_down(scheme, nf)
+    lit = _lit_tab(scheme, nf, which)
+    tol = 1e-3 if (n, l) == (3, 0) else 1e-9 * max(1.0, abs(lit[n][l]))
+    if abs(tab[n, l] - lit[n][l]) > tol:
+        return {"detail": "%s-matching coefficient c[%d,%d] for scheme %s, nf=%d is %r, published value %r" % (which, n, l, scheme, nf, float(tab[n, l]), lit[n][l])}
     return None
 
 
@@ -596,7 +605,9 @@ def main():
     chk.out_of_claim = ["fixed-flavour evolution between thresholds (C15) and the choice of the path (C19); here the legs are replaced by a recording identity",
                         "numerical position of the thresholds (np.isclose tolerance) in real runs", "QED corrections to the decoupling (none implemented)"]
     chk.stubs = ["Couplings.compute -> recording identity (returns a copy of its input)", "thresholds_ratios -> tokens whose np.log is a free symbol",
-                 "builtin float() in eko.couplings -> identity on symbolic values"]
+                 "builtin float() in eko.couplings -> identity on symbolic values",
+                 "compute_matching_coeffs_up -> the real function with every float entry of its result lifted to the exact rational it denotes (so that "
+                 "invert_matching_coeffs and the loop run in exact arithmetic); nf handed down as an exact constant"]
     chk.assumptions = ["refs/decoupling.py and refs/rge_literature.py transcribe the cited papers correctly (cross-validated: zeta*(1/zeta)=1, printed decimals, RG consistency of the oracle itself is an obligation)",
                        "MS-bar scheme: L = ln(mu^2/m_h(mu)^2) with the heavy-quark mass running in the (nf+1)-flavour theory (the convention of the published relation the code cites)"]
     for scheme in ("POLE", "MSBAR"):
